@@ -17,12 +17,18 @@ def digitVal (c : Char) : Option Nat :=
   else if 'A' ≤ c ∧ c ≤ 'Z' then some (c.toNat - 'A'.toNat + 10)
   else none
 
+/-- one step of positional accumulation -/
+def digitStep (base : Nat) (acc : Option Nat) (c : Char) : Option Nat :=
+  match acc, digitVal c with
+  | some a, some d => if d < base then some (a * base + d) else none
+  | _, _ => none
+
+def foldDigits (base : Nat) (acc : Option Nat) (cs : List Char) : Option Nat :=
+  cs.foldl (digitStep base) acc
+
 /-- digits of a non-empty string in `base`, most significant first -/
 def parseDigits (base : Nat) (cs : List Char) : Option Nat :=
-  if cs.isEmpty then none else
-  cs.foldl (fun acc c => match acc, digitVal c with
-    | some a, some d => if d < base then some (a * base + d) else none
-    | _, _ => none) (some 0)
+  if cs.isEmpty then none else foldDigits base (some 0) cs
 
 /-- `strconv.ParseInt(s, base, 64)` / `big.Int.SetString(s, base)` for base ≠ 0:
 an optional sign, then at least one digit; no underscores.  (Range errors cannot
@@ -39,55 +45,57 @@ def isGoSpace (c : Char) : Bool :=
 def trimSpace (cs : List Char) : List Char :=
   ((cs.dropWhile isGoSpace).reverse.dropWhile isGoSpace).reverse
 
-/-- `py.IntFromString(str, base)`; `none` = ValueError -/
-def intFromString (str : List Char) (base : Nat) : Option Obj := Id.run do
-  let mut s := trimSpace str
-  let mut negative := false
-  let mut convertBase := base
-  if s.isEmpty then return none
+def stripSign (s : List Char) : Bool × List Char :=
   match s with
-  | c :: rest =>
-    if c == '+' || c == '-' then
-      if c == '-' then negative := true
-      s := rest
-      if s.isEmpty then return none
-  | [] => pure ()
-  -- leading sigils
+  | '+' :: r => (false, r)
+  | '-' :: r => (true, r)
+  | _ => (false, s)
+
+def sigilOf (c : Char) : Option Nat :=
+  if c == 'x' || c == 'X' then some 16
+  else if c == 'o' || c == 'O' then some 8
+  else if c == 'b' || c == 'B' then some 2
+  else none
+
+def isSign (c : Char) : Bool := c == '+' || c == '-'
+def isDec (c : Char) : Bool := decide ('0' ≤ c ∧ c ≤ '9')
+
+/-- the "leading sigils" block: (convertBase, remaining text); `none` = `goto error` -/
+def stripSigil (base : Nat) (s : List Char) : Option (Nat × List Char) :=
   match s with
   | '0' :: c1 :: rest =>
-    let sig : Option Nat :=
-      if c1 == 'x' || c1 == 'X' then some 16
-      else if c1 == 'o' || c1 == 'O' then some 8
-      else if c1 == 'b' || c1 == 'B' then some 2
-      else none
-    match sig with
+    match sigilOf c1 with
     | some cb =>
-      if base != 0 && base != cb then
-        convertBase := base   -- ignore sigil
-      else
-        convertBase := cb
-        s := rest
-        if s.isEmpty then return none
-    | none => pure ()
-  | _ => pure ()
-  if convertBase == 0 then
-    convertBase := 10
-    -- leading zeros are illegal for base-0 decimal literals unless the literal is all zeros
-    match s with
-    | '0' :: c1 :: _ => if ('0' ≤ c1 ∧ c1 ≤ '9') && !(s.all (· == '0')) then return none
-    | _ => pure ()
-  -- the sign was handled above; ParseInt/SetString would accept another one
-  match s with
-  | c :: _ => if c == '+' || c == '-' then return none
-  | [] => pure ()
-  -- the int64 fast path and the big path compute the same value; only the
-  -- representation of the result differs (MaybeInt canonicalises)
-  match goParseSigned convertBase s with
-  | none => return none
-  | some i =>
-    let v := if negative then -i else i
-    if s.length ≤ 12 || (convertBase ≤ 10 && s.length ≤ 18) then return some (.int v)
-    else return some (maybeInt v)
+      if base != 0 && base != cb then some (base, s)     -- ignore sigil
+      else if rest.isEmpty then none else some (cb, rest)
+    | none => some (base, s)
+  | _ => some (base, s)
+
+/-- `py.IntFromString(str, base)`; `none` = ValueError -/
+def intFromString (str : List Char) (base : Nat) : Option Obj :=
+  let s0 := trimSpace str
+  if s0.isEmpty then none else
+  let (negative, s1) := stripSign s0
+  if s1.isEmpty then none else
+  match stripSigil base s1 with
+  | none => none
+  | some (cb, s) =>
+    -- base 0 without sigil: decimal; leading zeros are illegal unless the literal is all zeros
+    let bad0 := cb == 0 && (match s with
+      | '0' :: c1 :: _ => isDec c1 && !(s.all (· == '0'))
+      | _ => false)
+    let convertBase := if cb == 0 then 10 else cb
+    if bad0 then none else
+    -- the sign was handled above; ParseInt/SetString would accept another one
+    if (match s with | c :: _ => isSign c | [] => false) then none else
+    -- the int64 fast path and the big path compute the same value; only the
+    -- representation of the result differs (MaybeInt canonicalises)
+    match goParseSigned convertBase s with
+    | none => none
+    | some i =>
+      let v := if negative then -i else i
+      if s.length ≤ 12 || (convertBase ≤ 10 && s.length ≤ 18) then some (.int v)
+      else some (maybeInt v)
 
 /-! ### specification: Python's `int(text, base)` -/
 
